@@ -17,10 +17,15 @@ ERROR awkward_slicearray_ravel(
     }
   }
   else {
+    // block i of the output holds all the remaining dimensions of fromptr[i]
+    int64_t blocksize = 1;
+    for (int64_t k = 1;  k < ndim;  k++) {
+      blocksize *= shape[k];
+    }
     for (T i = 0;  i < shape[0];  i++) {
       ERROR err =
         awkward_slicearray_ravel<T>(
-          &toptr[i*shape[1]],
+          &toptr[i*blocksize],
           &fromptr[i*strides[0]],
           ndim - 1,
           &shape[1],
